@@ -87,6 +87,11 @@ def check_tree(si, pi):
                 "newick": Tree.from_newick(tree.to_newick()),
                 "newick labels": Tree.from_newick(tree.to_newick(labels=labels), labels=labels),
                 "newick spaces": Tree.from_newick(tree.to_newick().replace(",", " , ").replace("(", "( ")),
+                # labels are names, also when they look like numbers: digit strings whose value is not their position
+                "newick digit labels": Tree.from_newick(tree.to_newick(labels=[str(nleaves - 1 - k) for k in range(nleaves)]),
+                                                        labels=[str(nleaves - 1 - k) for k in range(nleaves)]),
+                "newick year labels": Tree.from_newick(tree.to_newick(labels=[str(1998 + 3 * k) for k in range(nleaves)]),
+                                                       labels=[str(1998 + 3 * k) for k in range(nleaves)]),
                 "binary": as_binary(tree)}
     for name, t in variants.items():
         if sorted(l.index for l in t.leaves) != list(range(nleaves)):
@@ -97,7 +102,7 @@ def check_tree(si, pi):
                 got = t.get_distance(a, b)
                 if abs(got - want) > 1e-5:
                     return f"{name}: distance({a},{b}) = {got}, path sum {want}"
-        if name in ("copy", "newick", "newick labels", "newick spaces") and not (t == tree):
+        if name in ("copy", "newick", "newick labels", "newick spaces", "newick digit labels", "newick year labels") and not (t == tree):
             return f"{name}: tree not equal to the original"
     # topology without distances
     topo = Tree.from_newick(tree.to_newick(include_distance=False))
